@@ -6,8 +6,12 @@
    Not modelled: mmap windows (every probe_mmap is assumed to succeed), locks, the data listener, the 64-bit wrap of
    offset_bits+length_bits, file contents other than the bitmap.  crzvar and the double-precision over-allocation
    decision are replaced by the oracle boolean [ovr] (consulted only where the C code evaluates the decision).
-   [vr] selects the code variant: all-false = src/fs/iwfsmfile.c as it is; fx_lfbk / fx_strict / fx_sync / fx_short follow the code
-   after fixes/fsm-lfbk.diff / fsm-strict-dealloc.diff / fsm-syncbmap.diff / fsm-dealloc-short.diff.  No proofs here. *)
+   [vr] selects the code variant: all-false = src/fs/iwfsmfile.c as it is; fx_lfbk / fx_strict / fx_sync / fx_short / fx_realloc /
+   fx_hint / fx_leak follow the code after fixes/fsm-lfbk.diff / fsm-strict-dealloc.diff / fsm-syncbmap.diff / fsm-dealloc-short.diff /
+   fsm-realloc-guard.diff / fsm-alloc-overflow.diff / fsm-resize-leak.diff.
+   64-bit arguments: the public functions take off_t values; every `(uint64_t) x >> bpow` of the C code is [blk_of] (the
+   cast is modelled, so negative and huge arguments are inside the model).  [maxoff]: the exfile's limit on the file size
+   (0 = none); a growth beyond it fails with IWFS_ERROR_MAXOFF in _exfile_ensure_size_lw ([ensure_ok]).  No proofs here. *)
 Require Import ZArith List Bool. Require Import IW.Lib.CInt IW.Gen.Facts IW.FS.Bits. Import ListNotations.
 Local Open Scope Z_scope. Local Open Scope bool_scope.
 
@@ -48,23 +52,25 @@ Fixpoint lookup_bounds (k : key) (t : list key) (lb : option key) : option key *
   end.
 
 (* code variant + the one open-time option that changes control flow (mmap_all) *)
-Record variant := mkVariant { fx_lfbk : bool; fx_strict : bool; fx_sync : bool; fx_short : bool; mmap_all : bool }.
+Record variant := mkVariant { fx_lfbk : bool; fx_strict : bool; fx_sync : bool; fx_short : bool; fx_realloc : bool; fx_hint : bool; fx_leak : bool;
+                             mmap_all : bool }.
 
 Record fsm := mkFsm {
   bm : list bool; tree : list key; lfbkoff : Z; lfbklen : Z;
   bmoff : Z; bmlen : Z; hdrlen : Z; bpow : Z; aunit : Z; fsize : Z;
   crzsum : Z; crznum : Z; p_crzsum : Z; p_crznum : Z; (* p_* = counters as last written to the file header *)
   p_bmoff : Z; p_bmlen : Z;  (* bitmap offset / length as last written to the file header: what the next open is told *)
+  maxoff : Z;                (* exfile: maximum allowed file size, a multiple of the page size; 0 = unlimited *)
   strict : bool; vr : variant }.
 
-Definition set_bm s x := mkFsm x (tree s) (lfbkoff s) (lfbklen s) (bmoff s) (bmlen s) (hdrlen s) (bpow s) (aunit s) (fsize s) (crzsum s) (crznum s) (p_crzsum s) (p_crznum s) (p_bmoff s) (p_bmlen s) (strict s) (vr s).
-Definition set_tree s x := mkFsm (bm s) x (lfbkoff s) (lfbklen s) (bmoff s) (bmlen s) (hdrlen s) (bpow s) (aunit s) (fsize s) (crzsum s) (crznum s) (p_crzsum s) (p_crznum s) (p_bmoff s) (p_bmlen s) (strict s) (vr s).
-Definition set_lfbk s o l := mkFsm (bm s) (tree s) o l (bmoff s) (bmlen s) (hdrlen s) (bpow s) (aunit s) (fsize s) (crzsum s) (crznum s) (p_crzsum s) (p_crznum s) (p_bmoff s) (p_bmlen s) (strict s) (vr s).
-Definition set_bmloc s o l := mkFsm (bm s) (tree s) (lfbkoff s) (lfbklen s) o l (hdrlen s) (bpow s) (aunit s) (fsize s) (crzsum s) (crznum s) (p_crzsum s) (p_crznum s) (p_bmoff s) (p_bmlen s) (strict s) (vr s).
-Definition set_fsize s x := mkFsm (bm s) (tree s) (lfbkoff s) (lfbklen s) (bmoff s) (bmlen s) (hdrlen s) (bpow s) (aunit s) x (crzsum s) (crznum s) (p_crzsum s) (p_crznum s) (p_bmoff s) (p_bmlen s) (strict s) (vr s).
-Definition set_crz s sum num := mkFsm (bm s) (tree s) (lfbkoff s) (lfbklen s) (bmoff s) (bmlen s) (hdrlen s) (bpow s) (aunit s) (fsize s) sum num (p_crzsum s) (p_crznum s) (p_bmoff s) (p_bmlen s) (strict s) (vr s).
+Definition set_bm s x := mkFsm x (tree s) (lfbkoff s) (lfbklen s) (bmoff s) (bmlen s) (hdrlen s) (bpow s) (aunit s) (fsize s) (crzsum s) (crznum s) (p_crzsum s) (p_crznum s) (p_bmoff s) (p_bmlen s) (maxoff s) (strict s) (vr s).
+Definition set_tree s x := mkFsm (bm s) x (lfbkoff s) (lfbklen s) (bmoff s) (bmlen s) (hdrlen s) (bpow s) (aunit s) (fsize s) (crzsum s) (crznum s) (p_crzsum s) (p_crznum s) (p_bmoff s) (p_bmlen s) (maxoff s) (strict s) (vr s).
+Definition set_lfbk s o l := mkFsm (bm s) (tree s) o l (bmoff s) (bmlen s) (hdrlen s) (bpow s) (aunit s) (fsize s) (crzsum s) (crznum s) (p_crzsum s) (p_crznum s) (p_bmoff s) (p_bmlen s) (maxoff s) (strict s) (vr s).
+Definition set_bmloc s o l := mkFsm (bm s) (tree s) (lfbkoff s) (lfbklen s) o l (hdrlen s) (bpow s) (aunit s) (fsize s) (crzsum s) (crznum s) (p_crzsum s) (p_crznum s) (p_bmoff s) (p_bmlen s) (maxoff s) (strict s) (vr s).
+Definition set_fsize s x := mkFsm (bm s) (tree s) (lfbkoff s) (lfbklen s) (bmoff s) (bmlen s) (hdrlen s) (bpow s) (aunit s) x (crzsum s) (crznum s) (p_crzsum s) (p_crznum s) (p_bmoff s) (p_bmlen s) (maxoff s) (strict s) (vr s).
+Definition set_crz s sum num := mkFsm (bm s) (tree s) (lfbkoff s) (lfbklen s) (bmoff s) (bmlen s) (hdrlen s) (bpow s) (aunit s) (fsize s) sum num (p_crzsum s) (p_crznum s) (p_bmoff s) (p_bmlen s) (maxoff s) (strict s) (vr s).
 (* _fsm_write_meta_lw: what a later open reads back *)
-Definition write_meta s := mkFsm (bm s) (tree s) (lfbkoff s) (lfbklen s) (bmoff s) (bmlen s) (hdrlen s) (bpow s) (aunit s) (fsize s) (crzsum s) (crznum s) (crzsum s) (crznum s) (bmoff s) (bmlen s) (strict s) (vr s).
+Definition write_meta s := mkFsm (bm s) (tree s) (lfbkoff s) (lfbklen s) (bmoff s) (bmlen s) (hdrlen s) (bpow s) (aunit s) (fsize s) (crzsum s) (crznum s) (crzsum s) (crznum s) (bmoff s) (bmlen s) (maxoff s) (strict s) (vr s).
 
 Definition has (opts flag : Z) : bool := negb (Z.land opts flag =? 0).
 Definition shl (x n : Z) : Z := Z.shiftl x n.
@@ -94,8 +100,10 @@ Definition del_fbk (s : fsm) (off len : Z) : fsm :=
   let '(_, found) := tree_remove (len, off) (tree s) in
   if found then del_fbk2 s (len, off) else s.
 
-(* _fsm_find_matching_fblock_lw *)
+(* _fsm_find_matching_fblock_lw.  After fixes/fsm-alloc-overflow.diff the offset - a locality hint only - is clamped to the
+   largest value a block key can hold; before, a hint of 2^32 blocks or more made every lookup fail *)
 Definition find_matching (s : fsm) (off len : Z) : option key :=
+  let off := if fx_hint (vr s) && (off >? FSM_BKEY_MAX) then FSM_BKEY_MAX else off in
   if negb (bkey_ok off len) then None else
   let '(lb, ub) := lookup_bounds (len, off) (tree s) None in
   let lkl := match lb with Some k => fst k | None => 0 end in
@@ -110,9 +118,15 @@ Definition set_bit_status (s : fsm) (off len : Z) (v dry chk : bool) : Z * fsm :
   let s' := if dry then s else set_bm s (set_range (bm s) off len v) in
   (if bad then IWFS_ERROR_FSM_SEGMENTATION else 0, s').
 
-(* _fsm_ensure_size_lw over an exfile with the default resize policy (page round-up), no maxoff *)
+(* _fsm_ensure_size_lw = _exfile_ensure_size_lw over an exfile with the default resize policy (page round-up):
+   [ensure_target] is the size handed to _exfile_truncate_lw (capped by maxoff), [ensure_ok] says whether the call returns 0
+   (otherwise IWFS_ERROR_MAXOFF and nothing changes), [ensure_size] is the state after a successful call *)
+Definition ensure_target (s : fsm) (sz : Z) : Z :=
+  let nsz := IW_ROUNDUP sz (aunit s) in
+  if negb (maxoff s =? 0) && (nsz >? maxoff s) then maxoff s else nsz.
+Definition ensure_ok (s : fsm) (sz : Z) : bool := (fsize s >=? sz) || (sz <=? ensure_target s sz).
 Definition ensure_size (s : fsm) (sz : Z) : fsm :=
-  if fsize s >=? sz then s else set_fsize s (IW_ROUNDUP sz (aunit s)).
+  if fsize s >=? sz then s else set_fsize s (ensure_target s sz).
 
 Definition aret := (Z * fsm * Z * Z)%type. (* rc, state, offset_blk, olength_blk *)
 
@@ -198,6 +212,7 @@ Definition init_lw (s : fsm) (nbmoff nbmlen : Z) : Z * fsm :=
   then (IWFS_ERROR_RANGE_NOT_ALIGNED, s) else
   if nbmlen <? bmlen s then (FSM_IW_ERROR_INVALID_ARGS, s) else
   if nbmlen * 8 <? shr (nbmoff + nbmlen) (bpow s) + 1 then (FSM_IW_ERROR_INVALID_ARGS, s) else
+  if negb (ensure_ok s (nbmoff + nbmlen)) then (FSM_E_MAXOFF, s) else
   let s0 := ensure_size s (nbmoff + nbmlen) in
   if negb (bmlen s =? 0) && negb (IW_RANGES_OVERLAP (bmoff s) (bmoff s + bmlen s) nbmoff (nbmoff + nbmlen) =? 0)
   then (FSM_IW_ERROR_INVALID_ARGS, s0) else
@@ -228,7 +243,9 @@ Definition resize_fsm_bitmap (s : fsm) (size : Z) : Z * fsm :=
     else if rc =? IWFS_ERROR_NO_FREE_SPACE
          then (IW_ROUNDUP (bmlen s * pow2 (bpow s) * 8) (aunit s), nbmlen)
          else (0, nbmlen) in
-  init_lw s1 nbmoff nbmlen'.
+  let '(rc2, s2) := init_lw s1 nbmoff nbmlen' in
+  (* after fixes/fsm-resize-leak.diff: the area carved out for a bitmap that could not be set up is given back *)
+  if fx_leak (vr s) && negb (rc2 =? 0) && (rc =? 0) then (rc2, snd (blk_deallocate s2 off sp)) else (rc2, s2).
 
 Definition RESIZE_FUEL : nat := 64%nat.
 Definition FUEL_OUT : Z := -1. (* never observed: the bitmap doubles on every round *)
@@ -238,7 +255,11 @@ Definition stats_update (s : fsm) (length_blk : Z) : fsm :=
   let s1 := if crznum s >? FSM_MAX_STATS_COUNT then set_crz s 0 0 else s in
   set_crz s1 (crzsum s1 + length_blk) (crznum s1 + 1).
 
-Definition solid (s : fsm) (off olen : Z) : fsm := ensure_size s (shl off (bpow s) + shl olen (bpow s)).
+(* IWFSM_SOLID_ALLOCATED_SPACE epilogue: [solid_rc] is what _fsm_ensure_size_lw returns, [solid] the state it leaves *)
+Definition solid_sz (s : fsm) (off olen : Z) : Z := shl off (bpow s) + shl olen (bpow s).
+Definition solid_rc (s : fsm) (off olen : Z) : Z := if ensure_ok s (solid_sz s off olen) then 0 else FSM_E_MAXOFF.
+Definition solid (s : fsm) (off olen : Z) : fsm :=
+  if ensure_ok s (solid_sz s off olen) then ensure_size s (solid_sz s off olen) else s.
 
 (* _fsm_blk_allocate_lw, IWFSM_ALLOC_PAGE_ALIGNED branch *)
 Fixpoint blk_allocate_al (fuel : nat) (s : fsm) (length_blk opts : Z) : aret :=
@@ -250,7 +271,7 @@ Fixpoint blk_allocate_al (fuel : nat) (s : fsm) (length_blk opts : Z) : aret :=
     | S f => let '(rc2, s2) := resize_fsm_bitmap s1 (shl (bmlen s1) 1) in
              if negb (rc2 =? 0) then (rc2, s2, off, olen) else blk_allocate_al f s2 length_blk opts
     end
-  else if (rc =? 0) && has opts IWFSM_SOLID_ALLOCATED_SPACE then (rc, solid s1 off olen, off, olen)
+  else if (rc =? 0) && has opts IWFSM_SOLID_ALLOCATED_SPACE then (solid_rc s1 off olen, solid s1 off olen, off, olen)
   else (rc, s1, off, olen).
 
 (* _fsm_blk_allocate_lw, the `start:` loop *)
@@ -267,6 +288,7 @@ Fixpoint blk_allocate_na (fuel : nat) (s : fsm) (length_blk offset_blk opts : Z)
     let '(rc, s3) := set_bit_status s2 noff olen true false (strict s) in
     let s4 := if (rc =? 0) && negb (has opts IWFSM_ALLOC_NO_STATS) then stats_update s3 length_blk else s3 in
     let s5 := if (rc =? 0) && has opts IWFSM_SOLID_ALLOCATED_SPACE then solid s4 noff olen else s4 in
+    let rc := if (rc =? 0) && has opts IWFSM_SOLID_ALLOCATED_SPACE then solid_rc s4 noff olen else rc in
     (* IWFSM_SYNC_BMAP: pool->sync_mmap(pool, fsm->bmoff) finds no window at bmoff when the whole file is one window *)
     let rc' := if (rc =? 0) && has opts IWFSM_SYNC_BMAP && mmap_all (vr s) && negb (fx_sync (vr s))
                then IWFS_ERROR_NOT_MMAPED else rc in
@@ -282,6 +304,8 @@ Fixpoint blk_allocate_na (fuel : nat) (s : fsm) (length_blk offset_blk opts : Z)
   end.
 
 Definition blk_allocate (s : fsm) (length_blk offset_blk opts : Z) (ovr : bool) : aret :=
+  (* after fixes/fsm-alloc-overflow.diff: no free extent can hold 2^32 blocks or more (struct bkey), growing the bitmap cannot help *)
+  if fx_hint (vr s) && (length_blk >? FSM_BKEY_MAX) then (FSM_IW_ERROR_OVERFLOW, s, offset_blk, length_blk) else
   if has opts IWFSM_ALLOC_PAGE_ALIGNED then blk_allocate_al RESIZE_FUEL s length_blk opts
   else blk_allocate_na RESIZE_FUEL s length_blk offset_blk opts ovr.
 
@@ -302,44 +326,52 @@ Definition trim_tail (s : fsm) : Z * fsm :=
 
 (* ---------------------------------------------------------------- public API *)
 Definition blkmask s : Z := pow2 (bpow s) - 1.
+(* (uint64_t) x >> fsm->bpow for an off_t argument x *)
+Definition blk_of (s : fsm) (x : Z) : Z := shr (uw 64 x) (bpow s).
 
 (* _fsm_allocate: (rc, state, addr, len) *)
 Definition allocate (s : fsm) (len addr opts : Z) (ovr : bool) : aret :=
   if len <=? 0 then (FSM_IW_ERROR_INVALID_ARGS, s, addr, 0) else
-  let sbnum := shr addr (bpow s) in
+  let sbnum := blk_of s addr in
   let len' := IW_ROUNDUP len (pow2 (bpow s)) in
   let '(rc, s1, off, nlen) := blk_allocate s (shr len' (bpow s)) sbnum opts ovr in
   if rc =? 0 then (0, s1, shl off (bpow s), shl nlen (bpow s)) else (rc, s1, addr, 0).
+
+(* the guard of _fsm_deallocate / _fsm_check_allocation_status: the range touches the header or the bitmap area *)
+Definition touches_meta (s : fsm) (offset_blk length_blk : Z) : bool :=
+  negb (IW_RANGES_OVERLAP offset_blk (offset_blk + length_blk) 0 (shr (hdrlen s) (bpow s)) =? 0)
+  || negb (IW_RANGES_OVERLAP offset_blk (offset_blk + length_blk) (shr (bmoff s) (bpow s))
+             (shr (bmoff s) (bpow s) + shr (bmlen s) (bpow s)) =? 0).
 
 (* _fsm_reallocate *)
 Definition reallocate (s : fsm) (nlen addr olen opts : Z) (ovr : bool) : aret :=
   if negb (Z.land addr (blkmask s) =? 0) || negb (Z.land olen (blkmask s) =? 0)
   then (IWFS_ERROR_RANGE_NOT_ALIGNED, s, addr, olen) else
   let nlen_blk := shr (IW_ROUNDUP nlen (pow2 (bpow s))) (bpow s) in
-  let olen_blk := shr olen (bpow s) in
-  let oaddr_blk := shr addr (bpow s) in
+  let olen_blk := blk_of s olen in
+  let oaddr_blk := blk_of s addr in
   if nlen_blk =? olen_blk then (0, s, addr, olen) else
+  (* after fixes/fsm-realloc-guard.diff: the old region is neither empty nor part of the header / the bitmap area *)
+  if fx_realloc (vr s) && (olen_blk <? 1) then (FSM_IW_ERROR_INVALID_ARGS, s, addr, olen) else
+  if fx_realloc (vr s) && touches_meta s oaddr_blk olen_blk then (IWFS_ERROR_FSM_SEGMENTATION, s, addr, olen) else
   if nlen_blk <? olen_blk then
     let '(rc, s1) := blk_deallocate s (oaddr_blk + nlen_blk) (olen_blk - nlen_blk) in
     if rc =? 0 then (0, s1, shl oaddr_blk (bpow s), shl nlen_blk (bpow s)) else (rc, s1, addr, olen)
   else
     let '(rc, s1, naddr_blk, sp) := blk_allocate s nlen_blk oaddr_blk opts ovr in
     if negb (rc =? 0) then (rc, s1, addr, olen) else
-    (* pool.copy: the destination range is brought inside the file *)
-    let s1 := if negb (naddr_blk =? oaddr_blk) then ensure_size s1 (shl naddr_blk (bpow s) + olen) else s1 in
+    (* pool.copy: the destination range is brought inside the file (_exfile_copy: _exfile_ensure_size_lw first) *)
+    let csz := shl naddr_blk (bpow s) + uw 64 olen in
+    if negb (naddr_blk =? oaddr_blk) && negb (ensure_ok s1 csz) then (FSM_E_MAXOFF, s1, addr, olen) else
+    let s1 := if negb (naddr_blk =? oaddr_blk) then ensure_size s1 csz else s1 in
     let '(rc2, s2) := blk_deallocate s1 oaddr_blk olen_blk in
     if negb (rc2 =? 0) then (rc2, s2, addr, olen) else
     (0, s2, shl naddr_blk (bpow s), shl sp (bpow s)).
 
-Definition touches_meta (s : fsm) (offset_blk length_blk : Z) : bool :=
-  negb (IW_RANGES_OVERLAP offset_blk (offset_blk + length_blk) 0 (shr (hdrlen s) (bpow s)) =? 0)
-  || negb (IW_RANGES_OVERLAP offset_blk (offset_blk + length_blk) (shr (bmoff s) (bpow s))
-             (shr (bmoff s) (bpow s) + shr (bmlen s) (bpow s)) =? 0).
-
 (* _fsm_deallocate *)
 Definition deallocate (s : fsm) (addr len : Z) : Z * fsm :=
-  let offset_blk := shr addr (bpow s) in
-  let length_blk := shr len (bpow s) in
+  let offset_blk := blk_of s addr in
+  let length_blk := blk_of s len in
   if negb (Z.land addr (blkmask s) =? 0) then (IWFS_ERROR_RANGE_NOT_ALIGNED, s) else
   if fx_short (vr s) && (length_blk <? 1) then (FSM_IW_ERROR_INVALID_ARGS, s) else
   if touches_meta s offset_blk length_blk then (IWFS_ERROR_FSM_SEGMENTATION, s) else
@@ -348,8 +380,8 @@ Definition deallocate (s : fsm) (addr len : Z) : Z * fsm :=
 (* _fsm_check_allocation_status *)
 Definition check_allocation_status (s : fsm) (addr len : Z) (allocated : bool) : Z :=
   if negb (Z.land addr (blkmask s) =? 0) || negb (Z.land len (blkmask s) =? 0) then IWFS_ERROR_RANGE_NOT_ALIGNED else
-  let offset_blk := shr addr (bpow s) in
-  let length_blk := shr len (bpow s) in
+  let offset_blk := blk_of s addr in
+  let length_blk := blk_of s len in
   if touches_meta s offset_blk length_blk then IWFS_ERROR_FSM_SEGMENTATION else
   fst (set_bit_status s offset_blk length_blk (negb allocated) true true).
 
@@ -362,10 +394,12 @@ Definition rw_status (s : fsm) (off siz : Z) : Z :=
     (if is_fully_allocated s (shr off (bpow s)) (shr (IW_ROUNDUP siz (pow2 (bpow s))) (bpow s)) then 0
      else IWFS_ERROR_FSM_SEGMENTATION)
   else 0.
-(* _fsm_write: the exfile grows to hold the written range *)
+(* _fsm_write: the exfile grows to hold the written range (_exfile_write refuses a range that ends behind maxoff) *)
 Definition write_op (s : fsm) (off siz : Z) : Z * fsm :=
   let rc := rw_status s off siz in
-  if rc =? 0 then (0, ensure_size s (off + siz)) else (rc, s).
+  if negb (rc =? 0) then (rc, s) else
+  if negb (maxoff s =? 0) && (off + siz >? maxoff s) then (FSM_E_MAXOFF, s) else
+  if negb (ensure_ok s (off + siz)) then (FSM_E_MAXOFF, s) else (0, ensure_size s (off + siz)).
 
 (* _fsm_clear *)
 Definition clear (s : fsm) (trim : bool) : Z * fsm :=
@@ -399,19 +433,24 @@ Definition disk_bm (s : fsm) : list bool :=
   else firstn (Z.to_nat (8 * p_bmlen s)) (bm s ++ repeat true (Z.to_nat (8 * p_bmlen s))).
 Definition reopen (s : fsm) (strict' mmap_all' : bool) : fsm :=
   load_fsm (mkFsm (disk_bm s) [] 0 0 (p_bmoff s) (p_bmlen s) (hdrlen s) (bpow s) (aunit s) (fsize s)
-                  (p_crzsum s) (p_crznum s) (p_crzsum s) (p_crznum s) (p_bmoff s) (p_bmlen s) strict'
-                  (mkVariant (fx_lfbk (vr s)) (fx_strict (vr s)) (fx_sync (vr s)) (fx_short (vr s)) mmap_all')).
+                  (p_crzsum s) (p_crznum s) (p_crzsum s) (p_crznum s) (p_bmoff s) (p_bmlen s) (maxoff s) strict'
+                  (mkVariant (fx_lfbk (vr s)) (fx_strict (vr s)) (fx_sync (vr s)) (fx_short (vr s)) (fx_realloc (vr s))
+                             (fx_hint (vr s)) (fx_leak (vr s)) mmap_all')).
 
-(* iwfs_fsmfile_open of a new (truncated) file: _fsm_init_impl + _fsm_init_new_lw *)
-Definition open_new (v : variant) (obpow ohdrlen obmlen : Z) (strict' : bool) : Z * fsm :=
+(* iwfs_fsmfile_open of a new (truncated) file: _fsm_init_impl + _fsm_init_new_lw; omaxoff = opts->exfile.maxoff
+   (iwfs_exfile_open keeps it, rounded down to the page size, when it is at least one page) *)
+Definition open_new_max (v : variant) (obpow ohdrlen obmlen omaxoff : Z) (strict' : bool) : Z * fsm :=
   let bp := if obpow =? 0 then FSM_DEFAULT_BPOW else obpow in
-  let s0 := mkFsm [] [] 0 0 0 0 0 bp FSM_AUNIT 0 0 0 0 0 0 0 strict' v in
+  let mx := if omaxoff >=? FSM_AUNIT then IW_ROUNDOWN omaxoff FSM_AUNIT else 0 in
+  let s0 := mkFsm [] [] 0 0 0 0 0 bp FSM_AUNIT 0 0 0 0 0 0 0 mx strict' v in
   if bp >? FSM_MAX_BLOCK_POW then (IWFS_ERROR_INVALID_BLOCK_SIZE, s0) else
   if pow2 bp >? FSM_AUNIT then (IWFS_ERROR_PLATFORM_PAGE, s0) else
   let hl := IW_ROUNDUP (uw 32 (ohdrlen + IWFSM_CUSTOM_HDR_DATA_OFFSET)) (pow2 bp) in
-  let s1 := mkFsm [] [] 0 0 0 0 (uw 32 hl) bp FSM_AUNIT 0 0 0 0 0 0 0 strict' v in
+  let s1 := mkFsm [] [] 0 0 0 0 (uw 32 hl) bp FSM_AUNIT 0 0 0 0 0 0 0 mx strict' v in
   let nbmlen := if obmlen >? 0 then IW_ROUNDUP obmlen FSM_AUNIT else FSM_AUNIT in
   init_lw s1 (IW_ROUNDUP (uw 32 hl) FSM_AUNIT) nbmlen.
+Definition open_new (v : variant) (obpow ohdrlen obmlen : Z) (strict' : bool) : Z * fsm :=
+  open_new_max v obpow ohdrlen obmlen 0 strict'.
 
 (* ---------------------------------------------------------------- one client operation *)
 Inductive op :=
